@@ -1580,6 +1580,225 @@ def sampler_capacity_rule(chk, rid, repo):
             chk.ob(rid, title, True, c, "; ".join(d for _, d in verdicts), key=key)
 
 
+_BIG = 64  # a numeric bound the drain reads that is at least this large is evaluated scaled down (bound and queue lengths together): the verdict does not depend on its magnitude
+_DRAIN_LENGTHS = (0, 1, 2, 3, 5, 8, 13, 21, 34, 55, 63, 64, 65, 100, 130)
+
+
+def single_drain_rule(chk, rid, repo):
+    """"Exactly one sample is recorded per executed request" rests on the hand-over sampler -> worker: the worker reads the sampler's draining routine ONCE after the last point at
+    which the executor can add samples and then discards / replaces the sampler (O4.4, rules/C07.drain_before_drive_rule proves that one read is on every such path - not that
+    one read suffices). Necessary condition, decided on VALUES with the statement interpreter and the queue model of rules/C07.py: ONE read of the draining routine hands out
+    every queued sample - each exactly once - and leaves the queue empty, for EVERY number of queued samples. The routine is evaluated for queue lengths below, at and beyond
+    every numeric bound it can read; a bound of 64 or more (a literal or constant expression of the Sampler class, class-level constants and defaults included) is read as a
+    small representative value and the queue lengths are chosen around THAT value (bound and length scaled together - whether the drain stops at a bound does not depend on the
+    bound's magnitude, and a queue of 2^20 samples is not walked element by element). A bound that comes from anywhere else is not evaluated: not recognised."""
+    from rules import C07 as c7
+
+    drv = repo.module(_D)
+    chk.rule(rid, "one read of the sampler's draining routine hands out EVERY queued sample exactly once and leaves the queue empty, however many samples are queued (the worker "
+             "reads it once after the last request of a task and then discards or replaces the sampler): evaluated against a model of the queue for lengths below, at and beyond "
+             "every numeric bound the routine reads", 1,
+             "a worker whose clients recorded more samples than the bound since the last periodic drain discards the rest with the sampler at the end of the task: requests "
+             "without a sample, silently missing from latency / service time / processing time / throughput")
+    S, q, smp, _, _ = c7._sampler_roles(drv)
+    fn = drv.methods(S).get(smp.name, smp)
+    bounds = set()
+    seen = set()
+    for n in ast.walk(S):
+        if id(n) in seen or not isinstance(n, (ast.Constant, ast.BinOp, ast.UnaryOp)):
+            continue
+        v = _const_number(n)
+        if v is None:
+            continue
+        seen.update(id(x) for x in ast.walk(n))  # (maximal constant expressions only)
+        if isinstance(v, int) and not isinstance(v, bool) and v >= _BIG:
+            bounds.add(v)
+    scale = {v: 7 + 6 * i for i, v in enumerate(sorted(bounds))}
+    read = {}
+
+    class Scaled(c7._Interp):
+        def ev(self, e, env):
+            if isinstance(e, (ast.Constant, ast.BinOp, ast.UnaryOp)):
+                v = _const_number(e)
+                if isinstance(v, int) and not isinstance(v, bool) and v >= _BIG:
+                    if v not in scale:
+                        raise c7._Undecided(f"the number {v} read from outside the Sampler class")
+                    read[v] = scale[v]
+                    return scale[v]
+            return c7._Interp.ev(self, e, env)
+
+    def drain(n):
+        items = c7._rep(n, "e")
+        qm = c7._QueueModel(items)
+        it = Scaled([drv])
+        it.model = qm
+        selfo = c7._O("sampler", S, drv, **{q: c7._T("global", c7._QueueModel.NAME)})
+        try:
+            return items, qm, it.call(c7._Fn(fn, drv, selfo), [], {}, fn), None
+        except c7._Undecided:
+            if it.raised is None:
+                raise
+            return items, qm, None, it.raised.v
+
+    key = f"{_D}:Sampler.{smp.name}:one-read-hands-out-every-queued-sample"
+    title = "one read of the draining routine returns every queued sample, whatever their number"
+    try:
+        bad = None
+        lengths, done = list(_DRAIN_LENGTHS), set()
+        while lengths and bad is None:
+            n = lengths.pop(0)
+            if n in done:
+                continue
+            done.add(n)
+            known = dict(read)
+            items, qm, ret, exc = drain(n)
+            for v, k in read.items():  # a bound read for the first time: lengths around its representative value
+                if v not in known:
+                    lengths += [x for x in (k - 1, k, k + 1, 2 * k, 2 * k + 1, 3 * k + 2) if x not in done]
+            unscaled = "".join(f" [the bound {v} of the Sampler class is read as {k}: a queue of {n} stands for one of {n - k} more than {v}]" for v, k in sorted(read.items()) if n > k)
+            if exc is not None:
+                bad = f"with {n} sample(s) queued the read ends with {c7._Interp.exc_name(exc) or repr(exc)}: the {qm.handed_out} sample(s) already dequeued are lost" + unscaled
+            elif not isinstance(ret, (list, tuple)):
+                chk.unknown(rid, f"the draining routine `{smp.name}` returns {ret!r}"[:140] + ": not a list of the queued samples", fn)
+                return
+            else:
+                got = [sum(1 for x in ret if x is y) for y in items]
+                if qm.pending() or any(c != 1 for c in got) or len(ret) != n:
+                    bad = (f"with {n} sample(s) queued one read returns {sum(1 for c in got if c)} of them" + (f", {sum(1 for c in got if c > 1)} more than once" if any(c > 1 for c in got) else "")
+                           + (f" and leaves {len(qm.pending())} in the queue: the worker that discards the sampler after its last read loses them" if qm.pending() else "") + unscaled)
+        chk.ob(rid, title, bad is None, fn, bad or f"evaluated for queues of {', '.join(map(str, sorted(done)))} sample(s)" + (
+            f" (numeric bounds read: {sorted(read)})" if read else " (the routine reads no numeric bound)") + ": all returned exactly once, queue empty afterwards", key=key)
+    except (c7._Undecided, c7._Need) as x:
+        chk.unknown(rid, f"the draining routine `{smp.name}` is not evaluated against the queue model: {x}", fn)
+
+
+_R = "esrally/driver/runner.py"
+_SUB_ROLES = ("absolute_time", "request_start", "service_time")
+
+
+def _record_key(e):
+    """the literal key under which e reads a record: `<x>["k"]` / `<x>.get("k")`; None for anything else"""
+    if isinstance(e, ast.Subscript) and isinstance(e.slice, ast.Constant) and isinstance(e.slice.value, str):
+        return e.slice.value
+    if isinstance(e, ast.Call) and isinstance(e.func, ast.Attribute) and e.func.attr == "get" and e.args and isinstance(e.args[0], ast.Constant) and isinstance(e.args[0].value, str):
+        return e.args[0].value
+    return None
+
+
+def subrequest_sample_keys(drv):
+    """({role: key}, the Sample(...) construction) - the keys of the timing record of a sub-request from which a method of Sample builds the derived sample: by data flow, the
+    key whose value is handed to the parameter of Sample.__init__ that is stored in the attribute of that role (issue time stamp, request start, service time)"""
+    Sm = drv.cls("Sample")
+    init = drv.methods(Sm).get("__init__")
+    if init is None:
+        raise AnchorMissing("Sample.__init__")
+    attr_of = {n.value.id: n.targets[0].attr.lstrip("_") for n in walk_body(init) if isinstance(n, ast.Assign) and len(n.targets) == 1 and is_self_attr(n.targets[0])
+               and isinstance(n.value, ast.Name) and n.value.id in params_of(init)}
+    made = [(c, m) for m in drv.methods(Sm).values() for c in walk_body(m) if isinstance(c, ast.Call) and last_attr(c.func) == Sm.name]
+    if len(made) != 1:
+        raise AnchorMissing(f"the one method of Sample that derives the samples of sub-requests (constructs Sample(...) from a timing record): {len(made)} construction(s) found")
+    c, m = made[0]
+    if any(isinstance(a, ast.Starred) for a in c.args) or any(k.arg is None for k in c.keywords):
+        raise AnchorMissing(f"the arguments of `{short(c, 60)}` in Sample.{m.name} are unpacked")
+    b, d = bind_args(c, init), all_defs(m)
+    keys = {}
+    for role in _SUB_ROLES:
+        ps = [p for p, a in attr_of.items() if a == role and p in b]
+        k = _record_key(_root(b[ps[0]], d)) if len(ps) == 1 else None
+        if k is None:
+            raise AnchorMissing(f"the key of the timing record that Sample.{m.name} reads for Sample.{role}" + (f" (`{u(b[ps[0]])}`)" if len(ps) == 1 else ""))
+        keys[role] = k
+    return keys, c
+
+
+def subrequest_sample_rule(chk, rid, repo):
+    """The samples of the sub-requests of a composite operation are requests like any other: their service time is the span of their OWN request context and they carry THEIR issue
+    time (docs/metrics.rst: the time stamp of a request metric is when Rally issued the request). They are not built by the request loop but from a timing record: roles by data
+    flow - the consumer is the method of Sample that constructs Sample(...) from the values of a record (subrequest_sample_keys gives the key per role), a producer is a dict
+    display in the runner module that has all those keys. For every producer, in the function it is written in: the value under the issue-time key is ONE reading of the wall
+    clock that is taken before the request is sent - the reading dominates every await inside the request context `with <client>.new_request_context()`, is reached from no await
+    of that function and no other await lies between it and the context (control-flow graph); the value under the request-start key is the context's request_start and the one
+    under the service-time key is request_end - request_start of the same context (formulas with the single-assignment locals folded)."""
+    drv, rmod = repo.module(_D), repo.module(_R)
+    chk.use(rmod)
+    chk.rule(rid, "a sample derived for a sub-request of a composite operation is stamped and timed like any request: in every producer of the timing record that Sample turns "
+             "into a sample, the issue time is one reading of the wall clock taken before the sub-request is sent (before every await inside its request context, after no "
+             "await), request_start is the context's request_start and service_time is request_end - request_start of that same context", 3,
+             "every sub-request of a composite operation is recorded with the time its response arrived as issue time (off by its service time against request_start / "
+             "relative_time of the same sample), or with a span that is not its own")
+    keys, ctor = subrequest_sample_keys(drv)
+    want = set(keys.values())
+    prods = [n for n in ast.walk(rmod.tree) if isinstance(n, ast.Dict) and want <= {k.value for k in n.keys if isinstance(k, ast.Constant) and isinstance(k.value, str)}]
+    if not prods:
+        raise AnchorMissing(f"a dict display in {_R} with the keys {sorted(want)} that Sample reads from the timing record of a sub-request")
+    for D in prods:
+        F = source.enclosing_func(D)
+        if F is None:
+            chk.unknown(rid, f"the timing record `{short(D, 60)}` is not built inside a function", D)
+            continue
+        where = source.qualname(D)
+        val = {k.value: v for k, v in zip(D.keys, D.values) if isinstance(k, ast.Constant)}
+        defs = all_defs(F)
+        withs = [(w, i) for w in walk_body(F) if isinstance(w, ast.With) for i in w.items if "new_request_context" in u(i.context_expr)]
+        if len(withs) != 1:
+            chk.unknown(rid, f"{where}: {len(withs)} request context(s) `with ... new_request_context()` in the function that builds the timing record", D)
+            continue
+        W, item = withs[0]
+        ctxvar = item.optional_vars.id if isinstance(item.optional_vars, ast.Name) else None
+        g = cfg_of(F)
+        awaits = [n for n in walk_body(F) if isinstance(n, ast.Await)]
+        inside = [a for a in awaits if any(x is W for x in source.ancestors(a))]
+        if not inside:
+            chk.unknown(rid, f"{where}: nothing is awaited inside the request context of the function that builds the timing record (the sub-request is not located)", W)
+            continue
+        # -- issue time ------------------------------------------------------------------------------------------------------------------------------
+        V = val[keys["absolute_time"]]
+        r = _root(V, defs)
+        key = f"{_R}:{where}:sub-request:issue-time-before-the-request"
+        title = "the issue time of a sub-request's sample is a reading of the wall clock taken before the sub-request is sent"
+        if _clock_name(r) is None or r.args or r.keywords:
+            if isinstance(V, ast.Name) and V.id not in defs and V.id not in _all_params(F) and all(
+                    _clock_name(n.value) is not None for n in walk_body(F) if isinstance(n, ast.Assign) and any(isinstance(t, ast.Name) and t.id == V.id for t in n.targets)) and any(
+                    isinstance(n, ast.Assign) and any(isinstance(t, ast.Name) and t.id == V.id for t in n.targets) for n in walk_body(F)):
+                chk.ob(rid, title, False, V, f"`{V.id}` is read from the clock more than once in {F.name}: the record carries the LAST reading, not the one taken when the request was issued", key=key)
+            else:
+                chk.unknown(rid, f"{where}: the issue time `{u(V)}` of the timing record is not one reading of a clock taken in {F.name}", V)
+        else:
+            S_ = source.enclosing_stmt(r)
+            ns = g.node_of(S_)
+            after = [a for a in awaits if g.node_of(source.enclosing_stmt(a)) is not ns and g.path_exists(g.node_of(source.enclosing_stmt(a)), ns)]
+            not_dom = [a for a in inside if not g.dominated_by_nodes(g.node_of(source.enclosing_stmt(a)), [ns])]
+            gap = [a for a in awaits if a not in inside and g.node_of(source.enclosing_stmt(a)) is not ns and g.path_exists(ns, g.node_of(source.enclosing_stmt(a)))
+                   and any(g.path_exists(g.node_of(source.enclosing_stmt(a)), g.node_of(source.enclosing_stmt(b))) for b in inside)]
+            same = [a for a in awaits if g.node_of(source.enclosing_stmt(a)) is ns]
+            wall = _clock_name(r) == "time.time"
+            if same:
+                chk.unknown(rid, f"{where}: the clock reading `{short(S_, 60)}` and an await are written in one statement", S_)
+                continue
+            ok = wall and not after and not not_dom and not gap
+            detail = f"`{u(V)}` = `{short(S_, 70)}`" + (
+                "" if ok else f": read from {_clock_name(r)}, not the wall clock" if not wall else
+                f": the reading is taken after `{short(after[0], 50)}` has returned - when the response of the sub-request arrived, not when it was issued (off by the service time)" if after else
+                f": the reading is not taken on every path before `{short(not_dom[0], 50)}`" if not_dom else f": `{short(gap[0], 50)}` is awaited between the reading and the request")
+            chk.ob(rid, title, ok, S_, detail, key=key)
+        # -- the spans -------------------------------------------------------------------------------------------------------------------------------
+        for role, formula in (("request_start", "{c}.request_start"), ("service_time", "{c}.request_end - {c}.request_start")):
+            e = inline_node(val[keys[role]], defs)
+            title = f"{role} of a sub-request's sample = {formula.format(c='ctx')} of its own request context"
+            key = f"{_R}:{where}:sub-request:{role}"
+            if ctxvar is None:
+                chk.unknown(rid, f"{where}: the request context is not bound to a local (`with ... as ctx`)", W)
+                continue
+            ok = rat_equal(e, parse_expr(formula.format(c=ctxvar)))
+            in_clock = {id(x) for n in ast.walk(e) if _clock_name(n) is not None for x in ast.walk(n)}  # (a reading of a clock written into the formula is a located value)
+            foreign = [n for n in ast.walk(e) if id(n) not in in_clock and (isinstance(n, (ast.Call, ast.Await)) and _clock_name(n) is None) or (id(n) not in in_clock and isinstance(n, ast.Name) and n.id != ctxvar and (n.id not in defs or isinstance(defs[n.id], (ast.Call, ast.Await))) and
+                                                                                       _clock_name(defs.get(n.id)) is None)]
+            if not ok and foreign:
+                chk.unknown(rid, f"{where}: {role} = `{u(e)}` holds the result of a call / a value that cannot be read as a formula over the request context", val[keys[role]])
+            else:
+                chk.ob(rid, title, ok, val[keys[role]], f"{role} = {u(e)}", key=key)
+
+
 def failure_results(drv):
     """[(number of operations, unit, handler)] that execute_single reports from its absorbing handlers (the handler's own binding of the member of the result triple, else the
     default bound unconditionally before the request's try); a member that is not one literal is None"""
@@ -2435,7 +2654,8 @@ def run(chk):
     failed_request_end_rule(chk, "O4.8", repo)
     from rules.C05 import _section  # (a role one of these rules cannot locate / evaluate makes THAT rule inconclusive and does not hide the verdicts of the others)
 
-    for rule_fn, rid in ((sample_type_clock_rule, "O4.9"), (failed_request_feedback_rule, "O4.10"), (sampler_capacity_rule, "O4.11")):
+    for rule_fn, rid in ((sample_type_clock_rule, "O4.9"), (failed_request_feedback_rule, "O4.10"), (sampler_capacity_rule, "O4.11"),
+                        (single_drain_rule, "O4.12"), (subrequest_sample_rule, "O4.13")):
         _section(chk, rid, rule_fn, chk, rid, repo)
     if pending is not None:
         raise pending
@@ -3217,4 +3437,53 @@ VARIANTS += [
     V("s5 keep: the queue's capacity passed positionally, the default spelled 2 ** 20", "keep", _D, _Q_MADE, "        self.q = queue.Queue(buffer_size)\n"),
     V("s5 keep: the default of the queue size spelled as a power", "keep", _D, _QSIZE_READ,
       "        self.sample_queue_size = int(self.config.opts(\"reporting\", \"sample.queue.size\", mandatory=False, default_value=2 ** 20))\n"),
+]
+
+# ---- round 6: O4.12 (one read of the sampler's drain hands out everything) / O4.13 (samples of sub-requests) -----------------------------------------------
+_DRAIN = "        try:\n            while True:\n                samples.append(self.q.get_nowait())\n        except queue.Empty:\n            pass\n        return samples\n"
+_DRAIN_LOOP = "            while True:\n                samples.append(self.q.get_nowait())\n"
+_SAMPLER_DOC = "    Encapsulates management of gathered samples.\n    \"\"\"\n"
+_RT_STAMP = "    async def __call__(self, es, params):\n        absolute_time = time.time()\n        with es[\"default\"].new_request_context() as request_context:\n            return_value = await self.delegate(es, params)\n"
+_RT_HEAD = "    async def __call__(self, es, params):\n"
+_RT_WITH = "        with es[\"default\"].new_request_context() as request_context:\n            return_value = await self.delegate(es, params)\n"
+_RT_ABS = "                    \"absolute_time\": absolute_time,\n"
+_RT_SPAN = "                    \"service_time\": end - start,\n                }\n        return result\n"
+VARIANTS += [
+    [V("s6 seed m16: one read of the sampler hands out at most one batch of 2^15 samples (class constant)", "break", _D, _SAMPLER_DOC, _SAMPLER_DOC + "\n    MAX_BATCH_SIZE = 1 << 15\n", "O4.12"),
+     V("", "break", _D, _DRAIN_LOOP, "            while len(samples) < Sampler.MAX_BATCH_SIZE:\n                samples.append(self.q.get_nowait())\n")],
+    V("s6 break: the drain stops after a literal number of samples", "break", _D, _DRAIN_LOOP, "            while len(samples) < 100000:\n                samples.append(self.q.get_nowait())\n", "O4.12"),
+    V("s6 break: the drain walks a bounded range", "break", _D, _DRAIN_LOOP, "            for _ in range(50):\n                samples.append(self.q.get_nowait())\n", "O4.12"),
+    V("s6 break: the drain leaves its loop when the batch has reached the old queue size", "break", _D, _DRAIN_LOOP,
+      "            while True:\n                samples.append(self.q.get_nowait())\n                if len(samples) >= 16384:\n                    break\n", "O4.12"),
+    V("s6 break: the drain reads the queue length once and caps it", "break", _D, _DRAIN,
+      "        for _ in range(min(self.q.qsize(), 4096)):\n            samples.append(self.q.get_nowait())\n        return samples\n", "O4.12"),
+    V("s6 break: the drain hands out every other sample only", "break", _D, _DRAIN_LOOP,
+      "            while True:\n                samples.append(self.q.get_nowait())\n                self.q.get_nowait()\n", "O4.12"),
+    V("s6 keep: the drain tests for emptiness instead of waiting for the Empty signal", "keep", _D, _DRAIN, "        while not self.q.empty():\n            samples.append(self.q.get_nowait())\n        return samples\n"),
+    V("s6 keep: try inside the loop, break on Empty, the sample through a local", "keep", _D, _DRAIN,
+      "        while True:\n            try:\n                sample = self.q.get_nowait()\n            except queue.Empty:\n                break\n            samples.append(sample)\n        return samples\n"),
+    V("s6 keep: the drain walks the queue length it read once (single consumer)", "keep", _D, _DRAIN,
+      "        for _ in range(self.q.qsize()):\n            samples.append(self.q.get_nowait())\n        return samples\n"),
+    V("s6 keep: an unrelated large constant in the Sampler class (the default queue size spelled as a shift)", "keep", _D,
+      "    def __init__(self, start_timestamp, buffer_size=16384):\n", "    def __init__(self, start_timestamp, buffer_size=1 << 14):\n"),
+    # O4.13
+    [V("s6 seed m17: the issue time of a sub-request is read when its timing record is built, after the response", "break", _R, _RT_STAMP, _RT_HEAD + _RT_WITH, "O4.13"),
+     V("", "break", _R, _RT_ABS, "                    \"absolute_time\": time.time(),\n")],
+    V("s6 break: the issue time of a sub-request is read right after the sub-request has returned", "break", _R, _RT_STAMP, _RT_HEAD + _RT_WITH + "            absolute_time = time.time()\n", "O4.13"),
+    V("s6 break: the issue time of a sub-request is a reading of the monotonic clock", "break", _R, "        absolute_time = time.time()\n        with es[\"default\"].new_request_context() as request_context:\n",
+      "        absolute_time = time.perf_counter()\n        with es[\"default\"].new_request_context() as request_context:\n", "O4.13"),
+    V("s6 break: the issue time of a sub-request is read before a pause that precedes the request", "break", _R, _RT_STAMP,
+      _RT_HEAD + "        absolute_time = time.time()\n        await asyncio.sleep(params.get(\"delay\", 0))\n" + _RT_WITH, "O4.13"),
+    V("s6 break: the service time of a sub-request is measured up to the time its record is built", "break", _R, "                    \"service_time\": end - start,\n                }\n",
+      "                    \"service_time\": time.perf_counter() - start,\n                }\n", "O4.13"),
+    V("s6 break: the service time of a sub-request is the end of its span", "break", _R, "                    \"service_time\": end - start,\n                }\n",
+      "                    \"service_time\": end,\n                }\n", "O4.13"),
+    V("s6 break: request_start of a sub-request's sample is the end of its request", "break", _R, "                    \"request_start\": start,\n                    \"request_end\": end,\n",
+      "                    \"request_start\": end,\n                    \"request_end\": end,\n", "O4.13"),
+    V("s6 keep: the issue time of a sub-request is read inside the request context, right before the sub-request is awaited", "keep", _R, _RT_STAMP,
+      _RT_HEAD + "        with es[\"default\"].new_request_context() as request_context:\n            absolute_time = time.time()\n            return_value = await self.delegate(es, params)\n"),
+    [V("s6 keep: the issue time of a sub-request under another local name, the spans without temporaries", "keep", _R,
+       "        absolute_time = time.time()\n        with es[\"default\"].new_request_context() as request_context:\n", "        issued_at = time.time()\n        with es[\"default\"].new_request_context() as request_context:\n"),
+     V("", "keep", _R, _RT_ABS, "                    \"absolute_time\": issued_at,\n"),
+     V("", "keep", _R, "                    \"service_time\": end - start,\n                }\n", "                    \"service_time\": request_context.request_end - request_context.request_start,\n                }\n")],
 ]
